@@ -1,9 +1,11 @@
 #!/bin/bash
 # re-runs every recorded seeded change against the quick check(s) named in its meta.json;
 # output: one line per (seed, check): CAUGHT / MISSED / NOAPPLY   -> /verif/target/seed_regress.log
-out=/verif/target/seed_regress.log; : > $out
+# optional: SEED_ONLY=<egrep pattern on the seed directory> restricts the run, log goes to seed_regress.<pid>.log
+out=/verif/target/seed_regress.log; [ -n "$SEED_ONLY" ] && out=/verif/target/seed_regress.$$.log; : > $out
 for meta in $(ls /verif/seeded/*/meta.json /verif/seeded/round*/*/meta.json 2>/dev/null); do
   dir=$(dirname $meta)
+  if [ -n "$SEED_ONLY" ] && ! echo "$dir" | grep -Eq "$SEED_ONLY"; then continue; fi
   cmd=$(python3 -c "import json,sys; print(json.load(open('$meta')).get('how_to_rerun',''))")
   patch=$(echo "$cmd" | awk '{print $2}')
   checks=$(echo "$cmd" | cut -d' ' -f3-)
@@ -23,4 +25,4 @@ for meta in $(ls /verif/seeded/*/meta.json /verif/seeded/round*/*/meta.json 2>/d
   flock -u 9
   if [ "$res" -gt 0 ]; then echo "$dir $first CAUGHT" >> $out; else echo "$dir $first MISSED" >> $out; fi
 done
-echo "DONE $(date -u +%FT%TZ)" >> $out
+echo "DONE $(date -u +%FT%TZ)" >> $out; echo $out
